@@ -55,9 +55,9 @@ def schema_defs(sdl: str) -> list[tuple[str, str, list[str], list[str], list[str
 
 
 def first_pass_late(defs) -> set[str]:
-    """The names the FIRST pass of sort_data_models keeps back — the trigger predicate of known finding
-    C17-single-member-union, computed from the schema alone (the Lean model computes the same set; the
-    two are compared on every case of campaign_order)."""
+    """The names the FIRST pass of sort_data_models keeps back — the trigger predicate of the (repaired)
+    finding C17-single-member-union, computed from the schema alone (the Lean model computes the same set;
+    the two are compared on every case of campaign_order)."""
     enums = {d[0] for d in defs if d[1] == "ENUM"}
     placed: set[str] = set()
     late: set[str] = set()
@@ -249,6 +249,13 @@ def campaign_order(ck: Check, c17) -> None:
             ck.disagree(camp_r, inp, "driver reply", replies[start + 1][:200])
         elif err is None:
             camp_r.hit("imports")
+            if late_members:
+                # the non-trivial agreement since the one-member alias quotes its member: an alias that is
+                # executed BEFORE the class of one of its members, and the module imports
+                camp_r.hit("imports_with_alias_before_member")
+                camp_r.distinct.add((o["sdl"], o["kind"]))
+                if any(len(u[4]) == 1 and u[4][0] in late for u in unions):
+                    camp_r.hit("imports_with_one_member_alias_before_member")
             if unresolved:
                 ck.disagree(camp_r, inp, {"aliases that look up an unbound class": sorted(unresolved)}, "the module imports")
         elif err[0] == "NameError" and any(err[1] in members_of[u] for u in members_of):
@@ -260,7 +267,7 @@ def campaign_order(ck: Check, c17) -> None:
             camp_r.hit("import_fails_elsewhere")  # MRO / dataclass default order: raised by a class statement
     ck.notes["rule:" + camp_o.name] = "distinct (document, model kind) in which the first pass of sort_data_models keeps at least one class back"
     ck.notes["rule:" + camp_a.name] = "distinct (members, true template variables, model kind, options)"
-    ck.notes["rule:" + camp_r.name] = "distinct (document, model kind) whose import stops at a union alias"
+    ck.notes["rule:" + camp_r.name] = "distinct (document, model kind) in which a union alias is executed before the class of one of its members (the module imports), or whose import stops at a union alias"
     camp_a.wall_s = camp_o.wall_s = camp_r.wall_s = (time.time() - t0) / 3
 
 
@@ -530,12 +537,12 @@ def campaign_all_orders(ck: Check, c17, quick: bool) -> None:
 # ------------------------------------------------------------------ targeted search
 def search_order(ck: Check, c17) -> None:
     """An obligation of the ordering half no longer checks (or the alias / order correspondence broke):
-    ask the model's refuter under which template variables a member of a union of ≥ 2 members is
-    evaluated eagerly, switch on the parser options that set them (generated table), and run the
+    ask the model's refuter under which template variables a member of a union (of one or more members)
+    is evaluated eagerly, switch on the parser options that set them (generated table), and run the
     property's own oracle over the documents of the family in which a union member is kept back."""
     from .. import e2e
 
-    camp = ck.campaign("search: union aliases over late members, under the options the refuter of safeMulti names")
+    camp = ck.campaign("search: union aliases over late members, under the options the refuter of safeFrom 1 names")
     rep = split_groups(ck.driver.run(["gqlorder.findeager"])[0])
     tpl_vars = graphql_tables.union_template_vars()
     option_sets: list[dict] = []
@@ -547,7 +554,11 @@ def search_order(ck: Check, c17) -> None:
     option_sets += [v for v in flag_vectors(True) if v not in option_sets]
     rng = ck.rng.fork("order_search")
     docs = []
-    for st in family_strata(True)[:5]:
+    strata = family_strata(True)
+    single = [st for st in strata if st["union_shape"] == "single_late"]
+    # the refuter names the member count as well: a one-member union first when that is where a member is eager
+    chosen = (single + strata[:5]) if (len(rep) == 3 and rep[2] == "1") else (strata[:5] + single)
+    for st in chosen:
         docs.append(c17.render_doc(gen_chain_doc(rng, c17, **{**st, "cyclic": False})))
     for opts in option_sets[:40]:
         for sdl in docs:
